@@ -68,8 +68,32 @@ fn reference(conv: &Beatmap, mode: GameMode, spec: &SetSpec, n: Option<u32>) -> 
         GameMode::Mania => {
             let e = &spec.mods.extra;
             let lazer = spec.mods.is_lazer_like();
-            if lazer && e.invert {
-                // only the generic clauses
+            if lazer && e.invert && !e.ho {
+                // Invert replaces the objects of every column by one hold note per gap between two consecutive "locations"
+                // (a note contributes one location, a hold note its head and its tail - equal times included): a column with
+                // L locations ends up with L - 1 objects, all of them hold notes
+                let cs = conv.cs;
+                let div = 512.0 / cs;
+                let mut per_col = vec![0usize; cs as usize];
+                for h in &conv.hit_objects {
+                    let c = (h.pos.x / div).floor().min(cs - 1.0) as usize;
+                    let w = if h.is_circle() {
+                        1
+                    } else if h.is_hold_note() {
+                        2
+                    } else {
+                        0
+                    };
+                    if let Some(slot) = per_col.get_mut(c) {
+                        *slot += w;
+                    }
+                }
+                let total_inv: usize = per_col.iter().map(|l| l.saturating_sub(1)).sum();
+                let k = n.map_or(total_inv, |n| (n as usize).min(total_inv)) as u64;
+                v.push(("n_objects", k));
+                v.push(("n_hold_notes", k));
+            } else if lazer && e.invert {
+                // (HoldOff and Invert together: only the generic clauses)
             } else if lazer && e.ho {
                 let kept = conv.hit_objects.iter().filter(|h| h.is_circle() || h.is_hold_note()).count();
                 v.push(("n_objects", n.map_or(kept, |n| (n as usize).min(kept)) as u64));
